@@ -2,6 +2,8 @@
 //! and records ndjson traces that TLC validates against the TLA+ specifications in ../spec.
 mod adversary;
 mod gen;
+mod hookrecv;
+mod hub;
 mod rec;
 mod suites;
 mod world;
@@ -32,6 +34,7 @@ fn main() {
         "pool" => suites::pool::main(seed, first, runs, ops, &out),
         "vault" => suites::vault::main(seed, first, runs, ops, &out),
         "lair" => suites::lair::main(seed, first, runs, ops, &out, kv.get("sched"), kv.get("table").and_then(|t| t.parse().ok())),
+        "epochs" => suites::epochs::main(seed, first, runs, ops, &out, kv.get("kind").map(|s| s.as_str()).unwrap_or("manager"), kv.get("sched"), kv.get("table").and_then(|t| t.parse().ok())),
         "math" => suites::math::main(seed, first, runs, ops, &out, kv.get("kind").map(|s| s.as_str()).unwrap_or("all")),
         _ => {
             eprintln!("unknown suite {suite}");
